@@ -8,6 +8,11 @@ attribute values) in pre-order → outer merge on `[PATH, name]` with indicator 
 per path component → attribute comparison → kept rows → `dataframe_to_tree` (path insertion) →
 `add_dict_to_tree_by_path` for the carried value pairs and the ` (~)` renames.
 String helpers, `Err`, `walk` come from `Helper.lean`.
+
+The executable model is cut into named stages (`rowsOf`, `outerJoin`, `markedRows`, `attrDiffs`,
+`keptRows`, `rebuild`, `renames`, `applyUpdates`, assembled in `treeDiff`) so that the proofs
+(`BigtreeProofs/Lemmas/Diff*.lean`) can describe each stage separately. `sortedDesc` is a
+structurally recursive insertion sort with de-duplication (`sorted(…, reverse=True)` + dict keys).
 -/
 
 namespace Helper
@@ -26,14 +31,10 @@ structure DRow where
   vals : List Val
   deriving Repr
 
-mutual
-def rowsOf (sep : Str) (attrList : List Str) (anc : List Str) : Tree → List DRow
-  | .node _ n av cs =>
-    ⟨pathName sep (anc ++ [n]), n, attrList.map (getAttr av)⟩ :: rowsOfL sep attrList (anc ++ [n]) cs
-def rowsOfL (sep : Str) (attrList : List Str) (anc : List Str) : List Tree → List DRow
-  | [] => []
-  | c :: cs => rowsOf sep attrList anc c ++ rowsOfL sep attrList anc cs
-end
+/-- `tree_to_dataframe(tree, name_col, path_col, attr_dict=…)`: one row per node of the
+    pre-order walk (`path_name`, `name`, the listed attributes) -/
+def rowsOf (sep : Str) (attrList : List Str) (t : Tree) : List DRow :=
+  (walk [] [] t).map fun v => ⟨pathName sep v.names, v.sub.name, attrList.map (getAttr v.sub.attrs)⟩
 
 inductive Ind where
   | left | right | both
@@ -137,35 +138,60 @@ def attrDiffRows (j : Nat) (m : List MRow) : List MRow :=
     let y := r.ys.getD j .null
     (x != .null || y != .null) && x != y && r.ind == .both
 
-/-- `sorted(paths, reverse=True)` followed by the dict comprehension (first occurrence kept) -/
-def sortedDesc (ps : List Str) : List Str := (ps.mergeSort fun a b => decide (b ≤ a)).eraseDups
+/-- `a < b` on strings: lexicographic on code points -/
+def strLt : Str → Str → Bool
+  | _, [] => false
+  | [], _ :: _ => true
+  | a :: as, b :: bs => decide (a < b) || (a == b && strLt as bs)
+
+/-- insertion into a strictly descending list; an element already present is dropped -/
+def insDesc (x : Str) : List Str → List Str
+  | [] => [x]
+  | y :: ys => if strLt y x then x :: y :: ys else if x == y then y :: ys else y :: insDesc x ys
+
+/-- `sorted(paths, reverse=True)` followed by the dict comprehension (one entry per key):
+    the distinct paths in descending order -/
+def sortedDesc (ps : List Str) : List Str := ps.foldr insDesc []
+
+/-- the merged frame: outer merge of the two exports, then `_add_suffix` on every path -/
+def markedRows (sep : Str) (attrList : List Str) (t1 t2 : Tree) : List MRow :=
+  let both := outerJoin attrList.length (rowsOf sep attrList t1) (rowsOf sep attrList t2)
+  let removed := (both.filter fun r => r.ind == .left).map (·.path)
+  let added := (both.filter fun r => r.ind == .right).map (·.path)
+  both.map fun r => { r with path := addSuffix sep removed added r.path }
+
+/-- attribute differences, one dictionary per attribute that has any (`path_changes_list_of_dict`) -/
+def attrDiffs (attrList : List Str) (both : List MRow) : List (List (Str × Upd)) :=
+  (attrList.zipIdx.map fun (k, j) =>
+    (attrDiffRows j both).map fun r => (r.path, Upd.pair k (r.xs.getD j .null) (r.ys.getD j .null))).filter
+    fun d => !d.isEmpty
+
+/-- the rows that go into `dataframe_to_tree` -/
+def keptRows (onlyDiff : Bool) (deque : List Str) (both : List MRow) : List MRow :=
+  if onlyDiff then both.filter fun r => r.ind != .both || deque.contains r.path else both
+
+/-- the ` (~)` renames, in `sorted(…, reverse=True)` order of the paths -/
+def renames (sep : Str) (deque : List Str) : List (Str × Upd) :=
+  (sortedDesc deque).map fun k => (k, Upd.name ((split sep k).getLastD [] ++ sufChanged))
+
+/-- `add_dict_to_tree_by_path` for a list of (path, update) -/
+def applyUpdates (sep : Str) (us : List (Str × Upd)) (t : Tree) : Except Err Tree :=
+  us.foldlM (fun t (pu : Str × Upd) => addPath sep pu.2 t pu.1) t
 
 /-- `get_tree_diff(tree, other_tree, only_diff, attr_list)` for two root trees, `sep = tree.sep`
     (the function first writes `other_tree.sep = tree.sep`) -/
 def treeDiff (sep : Str) (t1 t2 : Tree) (onlyDiff : Bool) (attrList : List Str) :
     Except Err (Option Tree) :=
-  let data := rowsOf sep attrList [] t1
-  let dataOther := rowsOf sep attrList [] t2
-  let both := outerJoin attrList.length data dataOther
-  let removed := (both.filter fun r => r.ind == .left).map (·.path)
-  let added := (both.filter fun r => r.ind == .right).map (·.path)
-  let both := both.map fun r => { r with path := addSuffix sep removed added r.path }
-  -- attribute differences, one dictionary per attribute that has any
-  let diffs : List (List (Str × Upd)) :=
-    (attrList.zipIdx.map fun (k, j) =>
-      (attrDiffRows j both).map fun r => (r.path, Upd.pair k (r.xs.getD j .null) (r.ys.getD j .null))).filter
-      fun d => !d.isEmpty
+  let both := markedRows sep attrList t1 t2
+  let diffs := attrDiffs attrList both
   let deque : List Str := diffs.flatMap fun d => d.map (·.1)
-  let kept :=
-    if onlyDiff then both.filter fun r => r.ind != .both || deque.contains r.path else both
+  let kept := keptRows onlyDiff deque both
   if kept.isEmpty then .ok none else
   match rebuild sep (kept.map (·.path)) with
   | .error e => .error e
   | .ok t =>
     if deque.isEmpty then .ok (some t) else
-    let names : List (Str × Upd) :=
-      (sortedDesc deque).map fun k => (k, Upd.name ((split sep k).getLastD [] ++ sufChanged))
-    match (diffs.flatten ++ names).foldlM (fun t (pu : Str × Upd) => addPath sep pu.2 t pu.1) t with
+    match applyUpdates sep (diffs.flatten ++ renames sep deque) t with
     | .error e => .error e
     | .ok t => .ok (some t)
 
